@@ -151,7 +151,11 @@ pub fn run(ctx: &Ctx) -> i32 {
                 Ok(l) => { let s = a.to_cbor_data().len(); let (lo, hi) = size_range(s); if l < lo || l > hi { acc.viol(format!("C17|add_assertion_salted|{vn}|length-outside-range"), format!("salt length {l} outside {lo}..={hi} for assertion size {s}"), cid(), json!({})) } }
             }
             if *vn == "plain" || *vn == "big-object" {
-                match catch(|| r.assertions_with_predicate("sp")) { Ok(f) => if f.len() != (if hn.starts_with("holds") { 2 } else { 1 }) { acc.viol(format!("C17|add_assertion_salted|{vn}|not-found-by-predicate"), "the salted assertion is not found by its predicate", cid(), json!({"got": crate::report::ff(&r)})) }, Err(_) => acc.inc("panics_counted_under_C16") }
+                match catch(|| r.assertions_with_predicate("sp")) { Ok(f) => {
+                    if f.len() != (if hn.starts_with("holds") { 2 } else { 1 }) { acc.viol(format!("C17|add_assertion_salted|{vn}|not-found-by-predicate"), "the salted assertion is not found by its predicate", cid(), json!({"got": crate::report::ff(&r)})) }
+                    // what the lookup hands back is the added element itself - salt included - not a stripped copy with the digest of the unsalted assertion
+                    else if !f.iter().any(|x| bind::observe(x) == *newel) { acc.viol(format!("C17|add_assertion_salted|{vn}|lookup-returns-the-assertion-without-its-salt"), "looking the salted assertion up by its predicate does not return the element that was added (with its salt)", cid(), json!({"got": crate::report::ff(&r)})) }
+                }, Err(_) => acc.inc("panics_counted_under_C16") }
             }
             digests.insert(bind::dg(&r));
         }
